@@ -221,10 +221,10 @@ func ruleCases(now uint64) []ruleCase {
 		if crc != 0 {
 			q = p
 			q.HasCRC = false
-			add("ok.crc-type-without-field-primary", q, cs)
+			add("crc.type-without-field-primary", q, cs)
 			c2 = append([]rawCanon(nil), cs...)
 			c2[1].HasCRC = false
-			add("ok.crc-type-without-field-block", p, c2)
+			add("crc.type-without-field-block", p, c2)
 			q = p
 			q.CRCOverride = make([]byte, int(crc)*2)
 			add("crc.wrong-value-primary", q, cs)
@@ -262,11 +262,11 @@ func ruleCases(now uint64) []ruleCase {
 			q = p
 			q.HasCRC = true
 			q.CRCOverride = []byte{}
-			add("ok.crc-0-with-empty-field-primary", q, cs)
+			add("crc.type-0-with-empty-field-primary", q, cs)
 			c2 = append([]rawCanon(nil), cs...)
 			c2[1].HasCRC = true
 			c2[1].CRCOverride = []byte{}
-			add("ok.crc-0-with-empty-field-block", p, c2)
+			add("crc.type-0-with-empty-field-block", p, c2)
 		}
 
 		// registered routing blocks with nested invalid endpoint IDs
